@@ -241,6 +241,11 @@ def gen_tick(rng):
     else:
         src += rng.choice(["TIME(%d:%d:%d) ", "Time(%d:%d:%d) ", "Time=%d:%d:%d; ", "TIME( %d : %d : %d ) "]) % (m, b, t)
         want = ((m - 1 + kk) * nn + (b - 1)) * beat + t
+    # positions before tick 0 are positions too: rests bring the pointer back (TIME(0:1:0) r1 r1 c sounds at -384 + 768)
+    if rng.random() < 0.3:
+        back = rng.choice([1, 100, 384, 500, 1000, 5000])
+        src += "r%%%d " % back
+        want += back
     return src + "n60,", max(want, 0)
 
 
